@@ -203,6 +203,9 @@ func (fv *FuncVC) execReturn(x *ast.ReturnStmt, st *State) *State {
 	fv.retOrd++
 	ret := fv.retOrd
 	sig := fv.fi.Obj.Type().(*types.Signature)
+	if fv.curSig != nil {
+		sig = fv.curSig
+	}
 	if len(x.Results) > 0 {
 		if len(x.Results) == sig.Results().Len() {
 			vals := make([]Val, len(x.Results))
